@@ -190,7 +190,19 @@ def judge_archive(run, case, rec):
     e = np.asarray(A["error_array"], dtype=float)
     tool = rec["tool"]
     n = len(e)
-    # statistics stored == definitions on the stored values
+    # value k belongs to pose (pair) k: the stored values are the definition's values on the
+    # processed poses - when they are those values in another order, the companion arrays and the
+    # stored trajectories no longer refer to the pose a value belongs to
+    w = rec.get("want")
+    if w is not None and np.shape(w) == e.shape and n >= 2 and np.all(np.isfinite(w)) and np.all(np.isfinite(e)):
+        tol = rec.get("want_tol")
+        tol = 1e-9 * (1.0 + float(np.max(np.abs(w)))) if tol is None else tol
+        at_index = bool(np.all(np.abs(e - w) <= tol))
+        as_multiset = bool(np.all(np.abs(np.sort(e) - np.sort(w)) <= np.max(tol)))
+        run.check(at_index or not as_multiset, "value k is the value of pose k (not the same values in another order)", case,
+                  "%s result: the stored error values are those of the processed poses in another order "
+                  "(%d of %d values are not at the index of their pose)" % (tool, int(np.sum(np.abs(e - w) > tol)), n),
+                  key="archive:values-not-at-their-pose", argv=rec["argv"])
     if n:
         want = rm.stats_definition(e)
         mx = float(np.max(np.abs(e)))
